@@ -84,7 +84,7 @@ def gen_case(rng: random.Random, tier: str) -> dict:
     x = rng.random()
     if not prior or x < 0.25:
         cmd: dict[str, Any] = {"op": "create", "force": bool(broken) and (not prior or rng.random() < 0.5)}
-    elif x < 0.8:
+    elif x < 0.7:
         cmd = {"op": "reindex"}
     else:
         cmd = {"op": "reindex", "paths": "all-existing"}
@@ -99,7 +99,11 @@ def gen_case(rng: random.Random, tier: str) -> dict:
         "broken_page": broken,
         # the user does not wait for recovery: at about a quarter of the crash points a few
         # edits (incl. deleting / renaming pages) happen between the kill and the rerun
-        "between": [gen.gen_edit(rng, feats, _BETWEEN_WEIGHTS) for _ in range(rng.randint(1, 2))] if rng.random() < 0.6 else [{"e": "undo_everything"} if rng.random() < 0.6 else {"e": "undo_everything", "some": rng.randrange(1 << 16)}],
+        # ... or the user undoes (all or some of) the edits made since the last indexing. Other
+        # between-edits are not applied to explicit-path commands, so those always get the undo
+        "between": [gen.gen_edit(rng, feats, _BETWEEN_WEIGHTS) for _ in range(rng.randint(1, 2))]
+        if not prior or (rng.random() < 0.5 and not cmd.get("paths"))
+        else [{"e": "undo_everything"} if rng.random() < 0.6 else {"e": "undo_everything", "some": rng.randrange(1 << 16)}],
         "between_salt": rng.randrange(4),
         # thorough: a second kill during the rerun at a seeded boundary, for a share of the crash points
         "second_crash": [rng.random() for _ in range(4)] if tier == "thorough" else [],
@@ -261,7 +265,7 @@ def execute(case: dict, scratch: str) -> dict:
     variants: list[tuple[dict, bool]] = []
     for i, plan in enumerate(plans):
         variants.append((plan, False))
-        if case.get("between") and (is_undo or not cmd.get("paths")) and (len(plans) < 3 or (i + case.get("between_salt", 0)) % (2 if is_undo else 4) == 0):
+        if case.get("between") and (is_undo or not cmd.get("paths")) and (len(plans) < 3 or (i + case.get("between_salt", 0)) % (1 if is_undo else 4) == 0):
             variants.append((plan, True))
     for plan, with_between in variants:
         cls = boundary_class(cmd, effects, plan["k"], plan["kind"])
